@@ -600,7 +600,8 @@ int SimulateMsp430::one_operand_exe(uint16_t opcode)
       put_data(ea, reg_index, As, bw, result);
       update_reg(reg_index, As, bw);
       update_nz(result, bw);
-      update_c(result, bw);
+      // C is set when the result is not zero.
+      if ((result & 0xffff) != 0) { set_c(); } else { clear_c(); }
       clear_v();
       break;
     }
